@@ -9,8 +9,11 @@ open Vm VmSteps Sem Gen
 
 /-! ## counting -/
 
-/-- number of passes of `repeat n`: as long as the remaining count is positive -/
+/-- number of passes of `repeat n`: as long as the remaining count is positive
+(`Sem.passCount`) -/
 def passes (n : Rat) : Nat := if n ≤ 0 then 0 else n.ceil.toNat
+
+theorem passCount_eq (n : Rat) : passCount n = passes n := rfl
 
 theorem passes_nonpos (q : Rat) (h : ¬ 0 < q) : passes q = 0 := by
   have : q ≤ 0 := Rat.not_lt.mp h
@@ -350,13 +353,24 @@ theorem execWhile_succ (f : Nat) (c : Option Rv) (body : Block) (σ : S) :
       | .ok (true, s1) => loopBody (execBlock f body s1) fun s2 => execWhile f c body s2 := by
   cases c <;> simp only [execWhile, semTest] <;> rfl
 
+/-- the end of a pass that ran to its end: the increment is added to the index variable -/
+def stepIdx (ix : Option (String × Val)) (s2 : S) (K : S → Outcome × S) : Outcome × S :=
+  match ix with
+  | none => K s2
+  | some (v, incr) =>
+    match Vm.binOp .add (s2.lookup v) incr with
+    | some x => K (s2.assign v x)
+    | none => (.fault "arithmetic error", s2)
+
 theorem execPasses_succ (f : Nat) (binds : List (String × Val)) (rest : List (List (String × Val)))
-    (body : Block) (σ : S) :
-    execPasses (f + 1) (binds :: rest) body σ =
+    (ix : Option (String × Val)) (body : Block) (σ : S) :
+    execPasses (f + 1) (binds :: rest) ix body σ =
       loopBody (execBlock f body (binds.foldl (fun st (n, v) => st.assign n v) σ))
-        fun s2 => execPasses f rest body s2 := by
+        fun s2 => stepIdx ix s2 fun s3 => execPasses f rest ix body s3 := by
   simp only [execPasses]
-  rfl
+  cases ix with
+  | none => rfl
+  | some p => obtain ⟨v, incr⟩ := p; rfl
 
 
 def testCode : Option Rv → List Instr
@@ -500,7 +514,7 @@ def CountIter (img : Image) (K : Ctx) (f : Nat) : Prop :=
         loopPost none) ++
       [.jump .always off] ++ [.endLoop]) →
     ((top + 5 + (genBlock body).length + 4 : Nat) : Int) + off = (top : Int) →
-    execPasses f (List.replicate (passes q) []) body σ = (o, σ') → (o = .normal ∨ o = .brk) →
+    execPasses f (List.replicate (passes q) []) none body σ = (o, σ') → (o = .normal ∨ o = .brk) →
     o = .normal ∧ Exec img s (At K (top + 5 + (genBlock body).length + 4 + 1 + 1) stk [] σ')
 
 theorem count_zero : CountIter img K 0 := by
@@ -525,7 +539,7 @@ theorem count_step (f : Nat) (ihB : BlockGoal img K f) (ihC : CountIter img K f)
   by_cases hq : 0 < q
   · -- one more pass
     rw [passes_pos q hq, List.replicate_succ, execPasses_succ] at h
-    simp only [List.foldl_nil] at h
+    simp only [List.foldl_nil, stepIdx] at h
     have hjmp : ∀ t0, (At K (top + 4) (.loop vars ht :: stk) [] σ t0 ∧
         t0.regs .result = .bool (decide (0 < q))) →
         Exec img t0 (At K (top + 5) (.loop vars ht :: stk) [] σ) := by
@@ -660,8 +674,8 @@ theorem loop_count (f : Nat) (ihC : CountIter img K f) (n : Rv) (hn : RvOK n) (b
         simp only [numToCount, Option.map_eq_some_iff] at hq
         obtain ⟨⟨q', fl⟩, h1, h2⟩ := hq
         exact ⟨fl, by rw [h1]; simp at h2; rw [h2]⟩
-      have h' : execPasses f (List.replicate (passes q) []) body σ1 = (o, σ') := by
-        rw [← range_map_nil]; exact h
+      have h' : execPasses f (List.replicate (passes q) []) none body σ1 = (o, σ') := by
+        rw [← passCount_eq]; exact h
       have hloop := hc.left.left.left.left.left.head
       have hpre := hc.left.left.left.left.left.tail
       have hrest : CodeAt img (pc + 1 + (genRv n (.to counter)).length)
